@@ -5,6 +5,7 @@ import (
 	"math/rand"
 	"sort"
 
+	metav1 "k8s.io/apimachinery/pkg/apis/meta/v1"
 	"k8s.io/apimachinery/pkg/apis/meta/v1/unstructured"
 	"k8s.io/apimachinery/pkg/runtime/schema"
 
@@ -127,6 +128,7 @@ type RandomOpts struct {
 	AllowArchive bool
 	AllowPause   bool
 	AllowOrphan  bool
+	Race         bool // API mode: third party acts on an object right before the pass's pending write on it
 	Settle       bool // after the walk: fair round-robin until quiescent, then a Quiesced event
 }
 
@@ -171,6 +173,36 @@ func (wk *walker) stepRandomPass() bool {
 	sort.Strings(as)
 	a := as[wk.rng.Intn(len(as))]
 	p := wk.flight[a]
+	// targeted race: a third party acts on the very object between the pass's read and its write/delete
+	if wk.opts.Race && !wk.opts.PassAtomic && p.Pending != nil && wk.envLeft > 0 &&
+		(p.Pending.verb == "Delete" || p.Pending.verb == "MergePatch" || p.Pending.verb == "ApplyPatch") &&
+		p.Pending.key.Group != pkoGroup && !p.Pending.dry && wk.rng.Intn(2) == 0 {
+		wk.envLeft--
+		k := p.Pending.key
+		switch wk.rng.Intn(5) {
+		case 0:
+			wk.w.EnvReown(k, true)
+		case 1:
+			wk.w.EnvReown(k, false)
+		case 2:
+			wk.w.EnvEditContent(k, "race")
+		case 3:
+			// delete and re-create: new incarnation (uid) under the same name
+			if m := wk.w.Store.Snapshot(k); m != nil {
+				u := &unstructured.Unstructured{Object: deepCopyMap(m)}
+				wk.w.EnvMutate("EnvRemoveFinalizer", k, map[string]any{"f": "*"}, func(m map[string]any) { delete(metaOf(m), "finalizers") })
+				if wk.w.EnvDelete(k, false) {
+					md := metaOf(u.Object)
+					for _, f := range []string{"uid", "resourceVersion", "generation", "creationTimestamp", "deletionTimestamp", "finalizers"} {
+						delete(md, f)
+					}
+					wk.w.EnvCreate(u)
+				}
+			}
+		case 4:
+			wk.w.EnvSetRevAnnotation(k, "9")
+		}
+	}
 	fault := ""
 	if wk.faults > 0 && wk.rng.Intn(12) == 0 {
 		wk.faults--
@@ -462,8 +494,75 @@ func Scenarios() []Scenario {
 	}
 }
 
+func moreScenarios() []Scenario {
+	rollout := func(w *World, names ...string) {
+		for i := 0; i < 3; i++ {
+			for _, n := range names {
+				w.RunPass("os", KOS(n))
+			}
+			for _, k := range w.CRKeys("ObjectSetPhase") {
+				w.RunPass("ph", k)
+			}
+			for k := range w.ListedObjects() {
+				if k.Kind == "Widget" {
+					w.EnvSetWidgetStatus(k, "Ready")
+				}
+			}
+		}
+	}
+	return []Scenario{
+		{Name: "sliced", Setup: func(w *World) {
+			sl := &corev1alpha1.ObjectSlice{ObjectMeta: metav1.ObjectMeta{Name: "sl1", Namespace: NS}}
+			sl.Objects = toPhases([]PhaseSpec{{Objects: []*unstructured.Unstructured{ConfigMap("cm1", "x"), Widget("w1", 1)}}})[0].Objects
+			w.EnvCreate(sl)
+			sl2 := &corev1alpha1.ObjectSlice{ObjectMeta: metav1.ObjectMeta{Name: "sl2", Namespace: NS}}
+			sl2.Objects = toPhases([]PhaseSpec{{Objects: []*unstructured.Unstructured{ConfigMap("cm2", "x")}}})[0].Objects
+			w.EnvCreate(sl2)
+			w.EnvCreate(NewObjectSet("a1", []PhaseSpec{
+				{Name: "p1", Slices: []string{"sl1"}},
+				{Name: "p2", Objects: []*unstructured.Unstructured{Widget("w2", 1)}, Slices: []string{"sl2"}},
+			}))
+		}},
+		{Name: "rolledout-2phase", Setup: func(w *World) {
+			w.EnvCreate(NewObjectSet("a1", []PhaseSpec{
+				{Name: "p1", Objects: []*unstructured.Unstructured{ConfigMap("cm1", "x"), Widget("w1", 1)}},
+				{Name: "p2", Objects: []*unstructured.Unstructured{Widget("w2", 1), ConfigMap("cm2", "x")}},
+			}))
+			rollout(w, "a1")
+		}},
+		{Name: "rolledout-delegated", Setup: func(w *World) {
+			w.EnvCreate(NewObjectSet("a1", []PhaseSpec{
+				{Name: "p1", Objects: []*unstructured.Unstructured{ConfigMap("cm1", "x")}},
+				{Name: "p2", Class: "default", Objects: []*unstructured.Unstructured{Widget("w2", 1), ConfigMap("cm2", "x")}},
+				{Name: "p3", Objects: []*unstructured.Unstructured{ConfigMap("cm3", "x")}},
+			}))
+			rollout(w, "a1")
+		}},
+		{Name: "rolledout-handover", Setup: func(w *World) {
+			w.EnvCreate(NewObjectSet("a1", []PhaseSpec{
+				{Name: "p1", Objects: []*unstructured.Unstructured{ConfigMap("shared", "x"), Widget("w1", 1)}},
+				{Name: "p2", Objects: []*unstructured.Unstructured{ConfigMap("dropped", "x")}},
+			}))
+			rollout(w, "a1")
+			w.EnvCreate(NewObjectSet("a2", []PhaseSpec{
+				{Name: "p1", Objects: []*unstructured.Unstructured{ConfigMap("shared", "y"), Widget("w1", 2)}},
+				{Name: "p2", Objects: []*unstructured.Unstructured{ConfigMap("added", "x")}},
+			}, "a1"))
+			rollout(w, "a1", "a2")
+		}},
+		{Name: "paused-start", Setup: func(w *World) {
+			os := NewObjectSet("a1", []PhaseSpec{
+				{Name: "p1", Objects: []*unstructured.Unstructured{ConfigMap("cm1", "x"), Widget("w1", 1)}},
+				{Name: "p2", Class: "default", Objects: []*unstructured.Unstructured{ConfigMap("cm2", "x")}},
+			})
+			os.Spec.LifecycleState = corev1alpha1.ObjectSetLifecycleStatePaused
+			w.EnvCreate(os)
+		}},
+	}
+}
+
 func ScenarioByName(n string) (Scenario, bool) {
-	for _, s := range Scenarios() {
+	for _, s := range append(Scenarios(), moreScenarios()...) {
 		if s.Name == n {
 			return s, true
 		}
